@@ -844,8 +844,13 @@ func (x *Exec) checkCallsites(fr *Frame, st *State, ci ssa.CallInstruction, key 
 			env.names["idx"] = specVal{term: x.elemIdx, typ: tInt}
 		}
 		if cc.Where != nil {
+			// a where clause that cannot even be evaluated at this site (e.g. it selects a field
+			// the argument type does not have) means the contract is not about this site
+			var werrs []string
+			env.tolerant = &werrs
 			w := x.evalBool(env, cc.Where.Expr)
-			if w == "false" {
+			env.tolerant = nil
+			if len(werrs) > 0 || w == "false" {
 				continue
 			}
 			for _, r := range cc.Requires {
